@@ -361,6 +361,9 @@ class Ctx:
             print("  %s: %s" % (v["signature"], v["what"][:600]))
         cov = dict(self.cov)
         cov["distinct_nontrivial"] = len(self._nontrivial)
+        # a replayed case may contain several evaluated points (probes, grid points); every
+        # distinct non-trivial key was evaluated at least once
+        cov["evaluations"] = max(cov["evaluations"], len(self._nontrivial))
         cov["rule"] = rule
         cov["exhaustive"] = exhaustive
         if explanation:
